@@ -475,6 +475,225 @@ pub fn run_filter(c: &FilCase) -> CaseReport {
 pub enum Case {
     Limiter(LimCase),
     Filter(FilCase),
+    /// the filter as wired into the receive task (real `RecvHandler::handle_inbound` behind a
+    /// channel): datagrams of every packet kind, exemptions, permit/ban entries
+    Recv(RecvCase),
+}
+
+#[derive(Clone, Copy, Debug, PartialEq, Eq, Hash, Serialize, Deserialize)]
+pub enum REv {
+    /// a well-formed datagram of kind 0 message / 1 handshake / 2 WHOAREYOU / 3 undecodable bytes
+    Arrive { ip: u8, node: u8, kind: u8 },
+    /// the handler expects (or no longer expects) a response from that source: exemption on / off
+    Expect { ip: u8, on: bool },
+    PermitIp { ip: u8, on: bool },
+    BanIp { ip: u8, on: bool },
+    PermitNode { node: u8, on: bool },
+    BanNode { node: u8, on: bool },
+    /// 30 s of virtual time: the receive task prunes its limiter
+    PruneTick,
+}
+
+#[derive(Clone, Debug, PartialEq, Eq, Hash, Serialize, Deserialize)]
+pub struct RecvCase {
+    pub ip_burst: u8,
+    pub node_burst: u8,
+    pub total_burst: u8,
+    pub ip_family: u8,
+    pub events: Vec<REv>,
+}
+
+async fn run_recv_async(c: &RecvCase, rep: &mut CaseReport) {
+    use discv5::socket::verif::{VDelivered, VRecv};
+    use discv5::verif::{packet_encode, VPacket};
+    use discv5::packet::{PacketKind, ProtocolIdentity};
+    IP_FAMILY.with(|f| f.set(c.ip_family));
+    *PERMIT_BAN_LIST.write() = Default::default();
+    let hour = Duration::from_secs(3600);
+    let (ipb, nb, tb) = (c.ip_burst.max(1) as u64, c.node_burst.max(1) as u64, c.total_burst.max(1) as u64);
+    let rl = RateLimiterBuilder::new().total_n_every(tb, hour).ip_n_every(ipb, hour).node_n_every(nb, hour).build().expect("quota builds");
+    let cfg = FilterConfig { enabled: true, rate_limiter: Some(rl), max_nodes_per_ip: None, max_bans_per_ip: None };
+    let local = NodeId::new(&[0x77u8; 32]);
+    let Ok(mut r) = VRecv::spawn(cfg, Some(hour), local).await else {
+        rep.fail("HARNESS/vrecv-spawn", "could not start the receive task".to_string());
+        return;
+    };
+    rep.class("receive-path");
+    let settle = || async {
+        for _ in 0..3 {
+            tokio::time::sleep(Duration::from_millis(1)).await;
+        }
+    };
+    let mut arrivals_ip: HashMap<u8, u64> = HashMap::new();
+    let mut arrivals_node: HashMap<u8, u64> = HashMap::new();
+    let mut arrivals_total = 0u64;
+    let mut delivered_ip: HashMap<u8, u64> = HashMap::new();
+    let mut delivered_node: HashMap<u8, u64> = HashMap::new();
+    let mut delivered_total = 0u64;
+    let mut handshake_judged = false;
+    for (idx, ev) in c.events.iter().enumerate() {
+        match *ev {
+            REv::PermitIp { ip, on } => {
+                let mut l = PERMIT_BAN_LIST.write();
+                if on { l.permit_ips.insert(ip_of(ip)); } else { l.permit_ips.remove(&ip_of(ip)); }
+            }
+            REv::BanIp { ip, on } => {
+                let mut l = PERMIT_BAN_LIST.write();
+                if on { l.ban_ips.insert(ip_of(ip), None); } else { l.ban_ips.remove(&ip_of(ip)); }
+            }
+            REv::PermitNode { node, on } => {
+                let mut l = PERMIT_BAN_LIST.write();
+                if on { l.permit_nodes.insert(node_of(node)); } else { l.permit_nodes.remove(&node_of(node)); }
+            }
+            REv::BanNode { node, on } => {
+                let mut l = PERMIT_BAN_LIST.write();
+                if on { l.ban_nodes.insert(node_of(node), None); } else { l.ban_nodes.remove(&node_of(node)); }
+            }
+            REv::Expect { ip, on } => {
+                let src = SocketAddr::new(ip_of(ip), 30303);
+                let mut m = r.expected_responses.write();
+                if on { m.insert(src, 1); } else { m.remove(&src); }
+            }
+            REv::PruneTick => {
+                tokio::time::sleep(Duration::from_secs(30)).await;
+                settle().await;
+            }
+            REv::Arrive { ip, node, kind } => {
+                let (ip, node, kind) = (ip % 3, node % 4, kind % 4);
+                let src = SocketAddr::new(ip_of(ip), 30303);
+                let mut nonce = [0u8; 12];
+                nonce[..8].copy_from_slice(&(idx as u64 + 1).to_be_bytes());
+                let has_src_id = kind == 0 || kind == 1;
+                let bytes = match kind {
+                    3 => vec![0xA5u8; 70 + idx % 500],
+                    k => {
+                        let pk = match k {
+                            0 => PacketKind::Message { src_id: node_of(node) },
+                            1 => PacketKind::Handshake { src_id: node_of(node), id_nonce_sig: vec![7u8; 64], ephem_pubkey: vec![2u8; 33], enr_record: None },
+                            _ => PacketKind::WhoAreYou { id_nonce: [9u8; 16], enr_seq: 1 },
+                        };
+                        let message = if k == 2 { vec![] } else { vec![0x5Au8; 20 + idx % 40] };
+                        packet_encode(VPacket { iv: idx as u128 + 1, message_nonce: nonce, protocol_identity: ProtocolIdentity::default(), kind: pk, message }, &local)
+                    }
+                };
+                let len = bytes.len();
+                let (ip_permitted, ip_banned, node_permitted, node_banned, exempt) = {
+                    let l = PERMIT_BAN_LIST.read();
+                    (
+                        l.permit_ips.contains(&ip_of(ip)),
+                        l.ban_ips.contains_key(&ip_of(ip)),
+                        l.permit_nodes.contains(&node_of(node)),
+                        l.ban_nodes.contains_key(&node_of(node)),
+                        r.expected_responses.read().contains_key(&src),
+                    )
+                };
+                let _ = r.inbound.send((src, bytes));
+                settle().await;
+                let out = r.take_delivered();
+                let delivered = out.iter().any(|d| match d {
+                    VDelivered::Packet { src_address, message_nonce, .. } => *src_address == src && *message_nonce == nonce && kind != 3,
+                    VDelivered::Unrecognized { src_address, len: l } => *src_address == src && *l == len && kind == 3,
+                });
+                if out.len() > 1 {
+                    rep.fail("recv/more-than-one-output-for-one-datagram", format!("{} outputs for one datagram", out.len()));
+                    return;
+                }
+                let what = ["message", "handshake", "WHOAREYOU", "undecodable"][kind as usize];
+                if exempt {
+                    rep.class("receive-path/datagram-from-exempt-source");
+                    continue; // solicited: outside this property (C13 / C04)
+                }
+                // R1 / R2: bans
+                if ip_banned && !ip_permitted && delivered {
+                    rep.fail("recv/R1-datagram-from-banned-ip-handed-on", format!("unsolicited {what} datagram from banned IP {} was handed to the handler", ip_of(ip)));
+                    return;
+                }
+                if has_src_id && node_banned && !node_permitted && delivered {
+                    rep.fail("recv/R2-datagram-from-banned-node-handed-on", format!("unsolicited {what} datagram from banned node id {node} was handed to the handler"));
+                    return;
+                }
+                if kind == 1 && (node_banned && !node_permitted || arrivals_node.get(&node).copied().unwrap_or(0) >= nb) {
+                    handshake_judged = true;
+                }
+                // ledger
+                let counted_ip = !ip_permitted && !ip_banned;
+                let before_ip = arrivals_ip.get(&ip).copied().unwrap_or(0);
+                let before_total = arrivals_total;
+                let before_node = arrivals_node.get(&node).copied().unwrap_or(0);
+                if counted_ip {
+                    *arrivals_ip.entry(ip).or_insert(0) += 1;
+                    arrivals_total += 1;
+                    if delivered {
+                        *delivered_ip.entry(ip).or_insert(0) += 1;
+                        delivered_total += 1;
+                    }
+                    if delivered_ip.get(&ip).copied().unwrap_or(0) > ipb {
+                        rep.fail("recv/R4-ip-burst-exceeded", format!("{} unsolicited datagrams from {} were handed on, burst {ipb} per hour", delivered_ip[&ip], ip_of(ip)));
+                        return;
+                    }
+                    if delivered_total > tb {
+                        rep.fail("recv/R4-total-burst-exceeded", format!("{delivered_total} unsolicited datagrams were handed on, total burst {tb} per hour"));
+                        return;
+                    }
+                }
+                let counted_node = has_src_id && !node_permitted && !node_banned && (ip_permitted || !ip_banned);
+                if counted_node {
+                    *arrivals_node.entry(node).or_insert(0) += 1;
+                    if delivered {
+                        *delivered_node.entry(node).or_insert(0) += 1;
+                    }
+                    if delivered_node.get(&node).copied().unwrap_or(0) > nb {
+                        rep.fail(
+                            "recv/R3-node-burst-exceeded",
+                            format!("{} unsolicited datagrams of node id {node} were handed on (the last one a {what} packet), burst {nb} per hour", delivered_node[&node]),
+                        );
+                        return;
+                    }
+                }
+                // R5: conforming traffic is never refused
+                let ip_ok = ip_permitted || (!ip_banned && before_ip < ipb && before_total < tb);
+                let node_ok = !has_src_id || node_permitted || (!node_banned && before_node < nb);
+                if ip_ok && node_ok && !delivered {
+                    rep.fail(
+                        "recv/R5-conforming-datagram-refused",
+                        format!("unsolicited {what} datagram #{} from {} (ip burst {ipb}, #{} overall of {tb}, #{} of node {node} of {nb}) was not handed on", before_ip + 1, ip_of(ip), before_total + 1, before_node + 1),
+                    );
+                    return;
+                }
+            }
+        }
+    }
+    if handshake_judged {
+        rep.class("receive-path/handshake-packet-from-banned-or-over-quota-node");
+        rep.nontrivial = true;
+    }
+    *PERMIT_BAN_LIST.write() = Default::default();
+}
+
+pub fn run_recv(c: &RecvCase) -> CaseReport {
+    let mut rep = CaseReport::default();
+    let rt = tokio::runtime::Builder::new_current_thread().enable_all().start_paused(true).build().expect("runtime");
+    rt.block_on(run_recv_async(c, &mut rep));
+    drop(rt);
+    if let Some(p) = crate::runner::take_panic() {
+        rep.fail(format!("panic-in-task/{}", p.split(':').take(2).collect::<Vec<_>>().join(":")), p);
+    }
+    rep
+}
+
+fn recv_strategy(max: usize) -> BoxedStrategy<RecvCase> {
+    let ev = prop_oneof![
+        24 => (0u8..3, 0u8..4, prop_oneof![4 => Just(0u8), 4 => Just(1u8), 1 => Just(2u8), 1 => Just(3u8)]).prop_map(|(ip, node, kind)| REv::Arrive { ip, node, kind }),
+        2 => (0u8..3, any::<bool>()).prop_map(|(ip, on)| REv::Expect { ip, on }),
+        1 => (0u8..3, any::<bool>()).prop_map(|(ip, on)| REv::PermitIp { ip, on }),
+        1 => (0u8..3, any::<bool>()).prop_map(|(ip, on)| REv::BanIp { ip, on }),
+        1 => (0u8..4, any::<bool>()).prop_map(|(node, on)| REv::PermitNode { node, on }),
+        2 => (0u8..4, any::<bool>()).prop_map(|(node, on)| REv::BanNode { node, on }),
+        1 => Just(REv::PruneTick),
+    ];
+    (1u8..=6, 1u8..=6, 4u8..=30, prop_oneof![3 => Just(0u8), 1 => Just(1u8), 1 => Just(2u8), 1 => Just(3u8)], proptest::collection::vec(ev, 1..max))
+        .prop_map(|(ip_burst, node_burst, total_burst, ip_family, events)| RecvCase { ip_burst, node_burst, total_burst, ip_family, events })
+        .boxed()
 }
 
 pub struct C18;
@@ -542,6 +761,7 @@ impl Property for C18 {
         prop_oneof![
             5 => lim_strategy(n).prop_map(Case::Limiter),
             2 => fil_strategy(80).prop_map(Case::Filter),
+            1 => recv_strategy(60).prop_map(Case::Recv),
         ]
         .boxed()
     }
@@ -549,10 +769,11 @@ impl Property for C18 {
         match case {
             Case::Limiter(c) => run_limiter(c),
             Case::Filter(c) => run_filter(c),
+            Case::Recv(c) => run_recv(c),
         }
     }
     fn rule() -> String {
-        "(a) arrival sequences (<=300 quick / <=600 thorough events over <=6 keys, gaps in {0, <t, t-1, t, t..n t, n t, >n t}, 10% multi-token batches, interleaved prune(now)) against the real Limiter with explicit time for quotas burst 1..32, replenish interval 1 us..10 s (period = n t, or n t + r with period >= 1 ms): every decision compared with an exact integer token bucket, with a second real instance that is never pruned (metamorphic), and all pairs of accepted arrivals checked against m*t <= period + window. (b) arrival sequences over 3 IPs x 4 node ids against the real Filter + the real global permit/ban list, quotas with a 1 h period (exactly burst tokens per key during a case), ban duration None/1h, permit/ban entries toggled between arrivals, prune_limiter calls; order-independent assertions B1..B5. Non-trivial: (a) a key was refused, a prune followed, and the key was accepted later; (b) the filter itself imposed a ban and a permit entry overrode a ban.".into()
+        "(a) arrival sequences (<=300 quick / <=600 thorough events over <=6 keys, gaps in {0, <t, t-1, t, t..n t, n t, >n t}, 10% multi-token batches, interleaved prune(now)) against the real Limiter with explicit time for quotas burst 1..32, replenish interval 1 us..10 s (period = n t, or n t + r with period >= 1 ms): every decision compared with an exact integer token bucket, with a second real instance that is never pruned (metamorphic), and all pairs of accepted arrivals checked against m*t <= period + window. (b) arrival sequences over 3 IPs x 4 node ids against the real Filter + the real global permit/ban list, quotas with a 1 h period (exactly burst tokens per key during a case), ban duration None/1h, permit/ban entries toggled between arrivals, prune_limiter calls; order-independent assertions B1..B5. (c) the same filter as wired into the real receive task (handle_inbound behind a channel): well-formed message / handshake / WHOAREYOU datagrams and undecodable bytes from 3 IPs x 4 node ids, exemptions for expected responses switched on and off, permit/ban entries, 30 s ticks of virtual time (the task's own pruning); for unsolicited datagrams: none from a banned IP or (if it carries a source id) a banned node id is handed to the handler, at most burst per IP / node id / in total are handed on, and one that is within every applicable quota and not banned is handed on. Non-trivial: (a) a key was refused, a prune followed, and the key was accepted later; (b) the filter itself imposed a ban and a permit entry overrode a ban; (c) a handshake-kind datagram arrived from a banned or over-quota node id.".into()
     }
     fn assumptions() -> Vec<String> {
         vec![
